@@ -4,6 +4,7 @@ import O2P.Props.C02
 import O2P.Props.C03
 import O2P.Props.C04
 import O2P.Props.C05
+import O2P.Props.C06
 import O2P.Props.C07
 import O2P.Props.C08
 import O2P.Props.C09
